@@ -318,4 +318,7 @@ class CppTarget(CTarget):
         self.build_rc = p.returncode
         self.build_log = p.stdout
         if p.returncode != 0:
-            raise MachineryFailure("C++ driver does not compile (options %r):\n%s" % (self.options, p.stdout[-3000:]))
+            from .harness_c import GeneratedCodeDoesNotCompile, _first_error_in
+
+            raise (GeneratedCodeDoesNotCompile if _first_error_in(p.stdout, str(self.out)) else MachineryFailure)(
+                "C++ driver does not compile (options %r):\n%s" % (self.options, p.stdout[-3000:]))
